@@ -6,7 +6,7 @@ From Coq Require Import Arith NArith List Bool.
 From Verif Require Import Base.Bytes Base.Hash Model.Merkle Model.MerkleSpec Model.Contracts Model.TreeStore Model.BridgeStore
   Proofs.Frontier Proofs.Rht Proofs.InitCache Proofs.ContractProofs Proofs.BitFacts Proofs.C01Proofs
   Proofs.TreeStoreProofs Proofs.TreeStoreCorollaries Proofs.BridgeReach Gen.SourceFacts.
-From Verif Require Gen.GenAppendOnlyTree Proofs.GenAgreeTree.
+From Verif Require Gen.GenAppendOnlyTree Proofs.GenAgreeTree Model.Abi Proofs.AbiProofs.
 Import ListNotations.
 Local Close Scope N_scope.
 
@@ -141,6 +141,21 @@ Theorem C01_processor_exit_roots : forall st i, BReach HT node zhf leafh st -> (
 Proof. exact (processor_exit_roots HT node node_inj zhf Hzh leafh Hleaf). Qed.
 End Processor.
 
+(* ================= from the chain's log to the node's Bridge =================
+   bridgesync/downloader.go buildBridgeEventHandler turns a BridgeEvent log into the Bridge whose Hash() is the exit-tree leaf. The byte-level
+   decoder of Model/Abi.v (go-ethereum's Unpack for the eight event arguments, `bytes metadata` in the middle) inverts the ABI encoding the
+   contract emits, for all field values in range and any metadata length; on every run the Bridge built by the REAL appender from REAL logs
+   of the deployed contract is compared with this decoder (Model/EvmCases.v K_EVENT_DECODE) and its Hash() with the contract's getLeafValue
+   (K_NODE_LEAF). *)
+Theorem C01_bridge_event_decode_inverts_encode : forall f, Abi.bridge_fields_ok f ->
+  Abi.decode_bridge_event (Abi.encode_bridge_event f) = Some f.
+Proof. exact AbiProofs.bridge_event_roundtrip. Qed.
+Example C01_bridge_event_nonvacuous :
+  let f := Abi.mkBF 1 3 0xabcd 7 0xbeef (2 ^ 200)%N [1; 2; 3; 4; 5]%N 41 in
+  Abi.bridge_fields_ok f /\ length (Abi.encode_bridge_event f) = (8 * 32 + 32 + 32)%nat /\
+  Abi.decode_bridge_event (firstn (8 * 32 + 32 + 4) (Abi.encode_bridge_event f)) = None.
+Proof. split; [repeat split; vm_compute; reflexivity || discriminate | split; vm_compute; reflexivity]. Qed.
+
 (* ================= the translated Go code =================
    Gen/GenAppendOnlyTree.v is GENERATED from tree/appendonlytree.go by tools/go2coq on every run: `AddLeaf_loop` is the first `for`
    statement of AddLeaf (the hashing loop over the 32 levels: bit test, right / left child, cache update, node list) as a
@@ -204,3 +219,4 @@ Print Assumptions C01_store_next_deposit_accepted.
 Print Assumptions C01_store_gap_refused.
 Print Assumptions C01_generated_AddLeaf_loop_root_is_merkle_root.
 Print Assumptions C01_generated_AddLeaf_loop_is_model.
+Print Assumptions C01_bridge_event_decode_inverts_encode.
